@@ -5,3 +5,4 @@ from harness.props.poolprops import PoolProp
 class P(PoolProp):
     id = "C01"
     focus = "C01"
+    rule = ('One case = configuration (1-3 workers, work/results queue bounds None/int/float, plain or factory pool, quota) x history of calls x scheduling policy and seed.  The unmodified FunctorPool / FactoryFunctorPool runs under the controlled scheduler; VIOLATION when a fully consumed imap does not return exactly [f(x) for x in data] in order, imap_unordered does not return the same multiset with every chunk as a contiguous block, the consumer raises, or a completed run misses a call.  CORRESPONDENCE: the extracted Coq model must accept the whole recorded event trace and end with the same results, main program counter, no payload left in the results queue.')
